@@ -330,7 +330,7 @@ def cfg_from_params(tpl, p):
                         mig={(a, b): float(p[f'm{e}_{a}_{b}']) for a in names for b in names if a != b}))
     cfg = dict(n={a: int(tpl['n'][a]) for a in names}, model=tuple(tpl['model']), epochs=eps, loci=tpl.get('loci', 1))
     if cfg['loci'] == 2:
-        cfg['r'] = tpl['r']; cfg['n_unl'] = tpl['n_unl']
+        cfg['r'] = float(p.get('r', tpl['r'])); cfg['n_unl'] = tpl['n_unl']
     if p.get('T') is not None:
         cfg['end_time'] = float(p['T'])
     return cfg
@@ -350,13 +350,15 @@ def params_from_cfg(cfg):
 
 def rand_template(rng, quick):
     single = rng.random() < 0.5
-    loci = 2 if rng.random() < 0.08 else 1
+    loci = 2 if rng.random() < 0.2 else 1
     cfg = rand_cfg17(rng, quick, single_epoch=single, loci=loci)
     cfg.pop('end_time', None); cfg.pop('start_time', None)
     names = conv.cfg_names(cfg)
     tpl = dict(names=names, n=dict(cfg['n']), model=cfg['model'], n_epochs=len(cfg['epochs']), loci=loci)
     if loci == 2:
         tpl['r'] = cfg['r']; tpl['n_unl'] = cfg['n_unl']
+        p0 = params_from_cfg(cfg); p0['r'] = float(cfg['r'])      # the recombination rate is a free parameter too
+        return tpl, p0
     return tpl, params_from_cfg(cfg)
 
 
@@ -368,6 +370,11 @@ def mutate_params(rng, tpl, p, earlier):
         return dict(rng.choice(earlier))                        # exactly an earlier parameter set
     what = rng.choice(['mig', 'mig', 'size', 'size', 'time', 'T', 'all']) if len(names) > 1 else \
         rng.choice(['size', 'size', 'time', 'T', 'all'])
+    if tpl.get('loci', 1) == 2 and rng.random() < 0.5:
+        # only the recombination rate differs from an earlier parameter set
+        q['r'] = rng.choice([x for x in (0.0, 0.125, 0.5, 1.0, 3.0, 8.0) if x != p.get('r')])
+        if rng.random() < 0.7:
+            return q
     if what in ('mig', 'all'):
         for e in range(ne):
             for a in names:
